@@ -1,5 +1,8 @@
 import H3.Model.Varint
 import H3.Model.Frame
+import H3.Model.FrameStream
+import H3.Model.WriteBuf
+import H3.Model.UniAccept
 import H3.Gen.Consts
 /-! Model of the WebTransport session-id plumbing: `h3/src/webtransport/session_id.rs`
     (`From<StreamId> for SessionId`, `From<SessionId> for StreamId`), the stream headers written
@@ -31,5 +34,186 @@ def surfaceUni (enabled : Bool) (ty : Nat) : Bool := ty == STREAM_WEBTRANSPORT_U
     the transport's; the bytes a reader obtains are their concatenation. -/
 def readAll (buffered : List (List Nat)) (later : List (List Nat)) : List Nat :=
   (buffered ++ later).flatten
+
+/-! ## Reading a WebTransport stream through the `AsyncRead` impls
+
+`h3/src/stream.rs`: `impl futures_util::io::AsyncRead for BufRecvStream` and `impl
+tokio::io::AsyncRead for BufRecvStream` (the two differ only in how the caller's buffer is
+passed: `&mut [u8]` of length `n` / a `ReadBuf` with `n` bytes `remaining()`);
+`h3-webtransport/src/stream.rs` forwards `RecvStream::poll_read` and `BidiStream::poll_read`
+to them; `BufRecvStream::split` hands `buf` and `eos` to the receive half unchanged.  The
+transport is a script of answers as in `H3.FS.Ev`; its end (FIN or RESET) is sticky. -/
+
+open H3.FS (Ev takeChunk)
+
+/-- `BufRecvStream` as the `AsyncRead` impls see it (what `FrameStream::into_inner()` /
+    `AcceptRecvStream::into_stream()` hand over): the `BufList` and the `eos` flag. -/
+structure Rd where
+  buf : List (List Nat) := []
+  eos : Bool := false
+deriving Repr, DecidableEq
+
+/-- `FrameStream::into_inner()` -/
+def Rd.ofFS (s : H3.FS.St) : Rd := { buf := s.buf, eos := s.eos }
+
+/-- `AcceptRecvStream::into_stream()` for a resolved WebTransport uni stream: the bytes behind the
+    header are what is left of the chunk the header ended in (`poll_next_varint` pulls one chunk
+    at a time and only when the buffered bytes do not suffice) -/
+def Rd.ofUni (s : H3.UniAccept.St) : Rd :=
+  { buf := if s.buf = [] then [] else [s.buf], eos := s.ended == some .fin }
+
+/-- the transport's answers from then on: the rest of the script; an end already seen is sticky -/
+def uniScript (s : H3.UniAccept.St) (r : List Ev) : List Ev :=
+  match s.ended with
+  | none => r
+  | some .fin => .fin :: r
+  | some (.reset c) => .reset c :: r
+
+/-- answer of one `poll_read(cx, buf)` -/
+inductive RdOut where
+  /-- futures: `Ready(Ok(b.len()))`, `b` copied to the front of the buffer; tokio:
+      `Ready(Ok(()))` after `put_slice(b)`.  `b = []` is what the caller takes for the end. -/
+  | data (b : List Nat)
+  /-- futures: `Ready(Ok(0))`; tokio: `Ready(Ok(()))`, nothing filled -/
+  | eof
+  | pending
+  /-- `io::Error::other(StreamErrorIncoming::StreamTerminated { error_code: c })` -/
+  | err (c : Nat)
+deriving Repr, DecidableEq
+
+/-- `let chunk = p.buf_mut().take_chunk(buf.len())` and the copy into the caller's buffer -/
+def takeLim (n : Nat) (s : Rd) : RdOut × Rd :=
+  match takeChunk n s.buf with
+  | (some d, buf') => (.data d, { s with buf := buf' })
+  | (none, _) => (.data [], s)
+
+/-- `AsyncRead::poll_read` with a caller buffer of `n` bytes: buffered bytes are served without
+    asking the transport; only an empty buffer makes `BufRecvStream::poll_read` pull one chunk. -/
+def pollRead (n : Nat) (s : Rd) (script : List Ev) : RdOut × Rd × List Ev :=
+  if s.buf.flatten ≠ [] then
+    ((takeLim n s).1, (takeLim n s).2, script)
+  else match script with
+    | [] => (.pending, s, [])
+    | .pend :: r => (.pending, s, r)
+    | .fin :: r => (.eof, { s with eos := true }, .fin :: r)
+    | .reset c :: r => (.err c, s, .reset c :: r)
+    | .chunk b :: r =>
+      let s1 := { s with buf := s.buf ++ [b] }
+      ((takeLim n s1).1, (takeLim n s1).2, r)
+
+/-- how a read loop ended -/
+inductive RdEnd where
+  /-- a call answered `Ok(0)` -/
+  | eof
+  | err (c : Nat)
+  /-- `Pending`, and the transport has nothing more to say for now -/
+  | open_
+  /-- the caller stopped although the stream has not ended (no buffer sizes left) -/
+  | more
+deriving Repr, DecidableEq
+
+structure RdRes where
+  /-- the bytes each completed call reported, in order -/
+  pieces : List (List Nat)
+  fin : RdEnd
+  s : Rd
+  script : List Ev
+  /-- the buffer sizes not used -/
+  left : List Nat
+deriving Repr, DecidableEq
+
+/-- every `Pending` answer is followed by another call with the same buffer once the transport
+    has more to say (`pollRead n s (.pend :: r) = (.pending, s, r)` on an empty buffer) -/
+def skipPend : List Ev → List Ev
+  | .pend :: r => skipPend r
+  | sc => sc
+
+/-- An application reading with caller buffers of sizes `n₁, n₂, …` (one per completed call) until
+    a call reports 0 bytes, an error, or the sizes are used up. -/
+def readLim : List Nat → Rd → List Ev → RdRes
+  | [], s, sc => { pieces := [], fin := .more, s := s, script := sc, left := [] }
+  | n :: ns, s, sc =>
+    let sc1 := if s.buf.flatten ≠ [] then sc else skipPend sc
+    match pollRead n s sc1 with
+    | (.data d, s', r) =>
+      if d = [] then { pieces := [], fin := .eof, s := s', script := r, left := ns }
+      else
+        let t := readLim ns s' r
+        { t with pieces := d :: t.pieces }
+    | (.eof, s', r) => { pieces := [], fin := .eof, s := s', script := r, left := ns }
+    | (.err c, s', r) => { pieces := [], fin := .err c, s := s', script := r, left := ns }
+    | (.pending, s', r) => { pieces := [], fin := .open_, s := s', script := r, left := n :: ns }
+
+/-! ## Writing on a WebTransport stream
+
+`h3-webtransport/src/server.rs` `OpenBi`/`OpenUni`: `WriteBuf::from(BidiStreamHeader::
+WebTransportBidi(id))` / `WriteBuf::from(UniStreamHeader::WebTransportUni(id))`, then `while
+buf.has_remaining() { ready!(stream.poll_send(cx, buf)) }` — the transport looks at `chunk()`,
+takes a prefix of it and `advance`s: `H3.WriteBuf.write` against an acceptance script (one entry
+per `poll_send` = the number of bytes the transport is willing to take, `0` = `Pending`).
+`h3-webtransport/src/stream.rs` + `h3/src/stream.rs`: `poll_send` / `AsyncWrite::poll_write`
+(futures and tokio) hand a byte slice to the transport's `poll_send`; `send_data` + `poll_ready`
+hand it a `WriteBuf` (for the application: `Frame::Data(bytes)`); `poll_finish` / `poll_close` /
+`poll_shutdown`, `reset`, `stop_sending` go to the transport unchanged. -/
+
+open H3.WriteBuf (WB WriteRes fromBidiHeader fromUniHeader fromFrame)
+
+/-- `poll_send(cx, &mut &[u8])` called with the rest of the slice until all of it is taken:
+    what the transport accepted, what is left when the script ends. -/
+def sendSlice : List Nat → List Nat → List Nat × List Nat
+  | d, [] => ([], d)
+  | d, k :: ks =>
+    if d = [] then ([], [])
+    else
+      let n := min k d.length
+      ((d.take n) ++ (sendSlice (d.drop n) ks).1, (sendSlice (d.drop n) ks).2)
+
+/-- one write call of the application, with the acceptance script the transport follows during it -/
+inductive WOp where
+  /-- `poll_send` / `AsyncWrite::poll_write` with a byte slice, until all of it is taken -/
+  | slice (d : List Nat) (script : List Nat)
+  /-- `send_data(Frame::Data(p))` then `poll_ready` until done -/
+  | frame (p : List Nat) (script : List Nat)
+  /-- `poll_finish` / `AsyncWrite::poll_close` / `AsyncWrite::poll_shutdown` -/
+  | finish
+  /-- `reset(code)` -/
+  | reset (c : Nat)
+deriving Repr, DecidableEq
+
+/-- the send side of one stream as the transport sees it -/
+structure Tx where
+  /-- every byte the transport has accepted, in order -/
+  wire : List Nat := []
+  fin : Bool := false
+  rst : Option Nat := none
+  /-- a call has not completed (it waits for the transport) or panicked: the calls behind it are
+      never made -/
+  stuck : Bool := false
+  panic : Bool := false
+deriving Repr, DecidableEq
+
+/-- a `WriteBuf` handed to the transport -/
+def Tx.writeBuf (t : Tx) (w : Option WB) (script : List Nat) : Tx :=
+  if t.stuck then t else
+  match H3.WriteBuf.write w script with
+  | .ready out => { t with wire := t.wire ++ out }
+  | .pending out _ => { t with wire := t.wire ++ out, stuck := true }
+  | .panic => { t with stuck := true, panic := true }
+
+def Tx.op (t : Tx) : WOp → Tx
+  | .slice d sc =>
+    if t.stuck then t
+    else { t with wire := t.wire ++ (sendSlice d sc).1, stuck := !(sendSlice d sc).2.isEmpty }
+  | .frame p sc => t.writeBuf (fromFrame (.data p)) sc
+  | .finish => if t.stuck then t else { t with fin := true }
+  | .reset c => if t.stuck then t else { t with rst := some (t.rst.getD c) }
+
+/-- `open_bi(sid)` under the acceptance script `hs`, then the application's calls -/
+def openBidi (sid : Nat) (hs : List Nat) (ops : List WOp) : Tx :=
+  ops.foldl Tx.op (({} : Tx).writeBuf (fromBidiHeader sid) hs)
+
+/-- `open_uni(sid)` under the acceptance script `hs`, then the application's calls -/
+def openUni (sid : Nat) (hs : List Nat) (ops : List WOp) : Tx :=
+  ops.foldl Tx.op (({} : Tx).writeBuf (fromUniHeader (.webTransportUni sid)) hs)
 
 end H3.Session
